@@ -843,6 +843,73 @@ func genHistory(g *vf.Rng, o histOpts) (calls []hcall, base string, dist map[str
 	return h.calls, base, h.dist
 }
 
+
+// genFarHistory builds a short program that spans almost a whole bank: a
+// label reference whose target is tens of thousands of bytes away (around the
+// +-32 KiB and +-64 KiB marks), with the base offset small enough to fit.
+func genFarHistory(g *vf.Rng, listing bool) (calls []hcall, base string, dist map[string]bool) {
+	h := &histGen{g: g, o: histOpts{listing: listing, withRefs: true}, sh: newShadow(listing), dist: map[string]bool{}}
+	off := []int{-1, 0x0000, 0x0010, 0x007E, 0x0100}[g.Intn(5)]
+	base = "far-unset"
+	if off >= 0 {
+		h.add(hcall{Op: "setbase", Arg: uint32(g.Intn(256))<<16 | uint32(off)})
+		base = fmt.Sprintf("far-%04x", off)
+	} else {
+		off = 0
+	}
+	room := 0x10000 - off
+	for i := 0; i < g.Intn(4); i++ {
+		if c, ok := h.randIns(4); ok {
+			h.add(c)
+		}
+	}
+	used := len(h.sh.code)
+	var gap int
+	switch g.Intn(4) {
+	case 0:
+		gap = 0x7F70 + g.Intn(0x120) // around 32 KiB
+	case 1:
+		gap = 0xFF70 + g.Intn(0x8E) // 64 KiB minus a short branch distance
+	case 2:
+		gap = 0xFE00 + g.Intn(0x1F0)
+	default:
+		gap = 0x100 + g.Intn(0xFD00)
+	}
+	if gap > room-used-16 {
+		gap = room - used - 16 - g.Intn(8)
+	}
+	l := h.newLabel()
+	kind := g.Intn(4)
+	switch kind {
+	case 0: // forward branch across the gap
+		h.branch(l)
+		h.add(hcall{Op: "data", Data: g.Bytes(gap)})
+		h.add(hcall{Op: "label", S: l})
+		h.dist[fmt.Sprintf("farfwd%x", gap>>12)] = true
+	case 1: // backward branch across the gap
+		h.add(hcall{Op: "label", S: l})
+		h.add(hcall{Op: "data", Data: g.Bytes(gap)})
+		h.branch(l)
+		h.dist[fmt.Sprintf("farback%x", gap>>12)] = true
+	case 2: // absolute jump across the gap (always resolvable)
+		h.add(hcall{Op: "ins", M: emByName["JMP_abs"], S: l})
+		h.add(hcall{Op: "data", Data: g.Bytes(gap)})
+		h.add(hcall{Op: "label", S: l})
+		h.dist["farjmp"] = true
+	default: // one short and one far reference to the same label
+		h.add(hcall{Op: "label", S: l})
+		h.pad(g.Intn(100))
+		h.branch(l)
+		h.add(hcall{Op: "data", Data: g.Bytes(gap)})
+		h.branch(l)
+		h.dist[fmt.Sprintf("farback%x", gap>>12)] = true
+	}
+	for i := 0; i < g.Intn(3); i++ {
+		h.add(hcall{Op: "ins", M: emByName["NOP"]})
+	}
+	return h.calls, base, h.dist
+}
+
 // ---------------------------------------------------------------- observation helpers
 
 type emObs struct {
